@@ -29,8 +29,28 @@ pub struct Case {
 
 pub fn gen_case(seed: u64, idx: usize) -> Case {
     let mut rng = Rng::new(mix(seed, &[tag("C11"), tag("e1case"), idx as u64]));
-    let opts = gen::random_delta_opts(&mut rng);
-    let gp = gen::random_params(&mut rng, opts.line_buffer_size.min(8));
+    let mut opts = gen::random_delta_opts(&mut rng);
+    let mut gp = gen::random_params(&mut rng, opts.line_buffer_size.min(8));
+    // one case in eight: big painted blocks (long runs of long lines with the default buffer size), so
+    // that single writes of 4 KiB .. 60 KiB occur - what a buffering layer in front of the consumer sees
+    let big = idx % 8 == 3;
+    if big {
+        let sbs = idx % 16 == 3;
+        opts.args = vec!["--no-gitconfig".into(), "--width".into(), if sbs { "240".into() } else { "160".into() }];
+        if sbs {
+            opts.args.push("--side-by-side".into());
+        }
+        opts.side_by_side = sbs;
+        opts.color_only = false;
+        opts.line_buffer_size = 32;
+        gp.flavor = gen::Flavor::Git;
+        gp.sections = vec![gen::SectionKind::Modified, gen::SectionKind::ModifiedEndsChanged];
+        gp.max_hunks = 2;
+        gp.pivot = *rng.pick(&[6usize, 12, 20, 28, 31]);
+        gp.max_run = gp.pivot + 2;
+        gp.long_line_pct = *rng.pick(&[30u8, 60, 90]);
+        gp.similar_pairs = true;
+    }
     let mut lines = gen::generate(&mut rng, &gp);
     let _ = gen::add_byte_features(&mut lines, &mut rng);
     if rng.chance(1, 3) {
@@ -48,7 +68,8 @@ pub fn gen_case(seed: u64, idx: usize) -> Case {
     }
     let nd = rng.range(1, 5);
     let rdelays_ms: Vec<i64> = (0..nd).map(|_| *rng.pick(&[0i64, 0, 1, 450, 2_000, 60_000])).collect();
-    Case { opts, lines, rchunks, wplan, rdelays_ms, pager: rng.chance(1, 2), hash_seed: rng.below(1_000_000) }
+    let pager = if big { idx % 32 != 19 } else { rng.chance(1, 2) };
+    Case { opts, lines, rchunks, wplan, rdelays_ms, pager, hash_seed: rng.below(1_000_000) }
 }
 
 fn spec_for(case: &Case, rchunks: Vec<i64>, wplan: Vec<i64>, rdelays: Vec<i64>) -> RunSpec {
